@@ -377,14 +377,14 @@ def _curved(case, rec):
 
 def clauses():
     return [
-        Clause("polygon", _polygon_case(), _polygon, quick=1500, thorough=40000, rule="Polygon valid/invalid",
+        Clause("polygon", _polygon_case(), _polygon, quick=4500, thorough=40000, rule="Polygon valid/invalid",
                floors={"mode:crossing": 0.05, "mode:duplicate": 0.08, "dup:non_adjacent": 0.03, "lattice_nonsimple": 0.03, "alias_checked": 0.1}),
-        Clause("convex_polygon", _convex2_case(), _convex2, quick=600, thorough=15000, rule="ConvexPolygon / ConvexSpheropolygon",
+        Clause("convex_polygon", _convex2_case(), _convex2, quick=1800, thorough=15000, rule="ConvexPolygon / ConvexSpheropolygon",
                floors={"mode:interior_point": 0.1, "alias_checked": 0.1}),
-        Clause("convex_polyhedron", _convex3_case(), _convex3, quick=400, thorough=10000, rule="ConvexPolyhedron / ConvexSpheropolyhedron",
+        Clause("convex_polyhedron", _convex3_case(), _convex3, quick=1200, thorough=10000, rule="ConvexPolyhedron / ConvexSpheropolyhedron",
                floors={"mode:interior_point": 0.05, "alias_checked": 0.08}),
-        Clause("polyhedron", _mesh_case(), _mesh, quick=150, thorough=4000, rule="Polyhedron", floors={"alias_checked": 0.5}),
-        Clause("curved", _curved_case(), _curved, quick=600, thorough=10000, rule="Circle/Ellipse/Sphere/Ellipsoid", floors={"alias_checked": 0.03}),
+        Clause("polyhedron", _mesh_case(), _mesh, quick=450, thorough=4000, rule="Polyhedron", floors={"alias_checked": 0.5}),
+        Clause("curved", _curved_case(), _curved, quick=1800, thorough=10000, rule="Circle/Ellipse/Sphere/Ellipsoid", floors={"alias_checked": 0.03}),
     ]
 
 
